@@ -592,18 +592,24 @@ func (f *Frame) havocArg(a SV, t types.Type, st *State, g, where string, readonl
 				h := c.fieldHeap(u.Elem(), i)
 				f.x.frameCheck(st, h, a.T, g, where)
 				nv := c.freshConst("hv", c.sortOf(s.Field(i).Type()))
+				c.assert(c.wf(s.Field(i).Type(), nv, st.wm()))
 				st.set(h, ite(fmt.Sprintf("(= %s 0)", a.T), st.get(h), sto(st.get(h), a.T, nv)))
 			}
 		} else {
 			h := c.boxHeap(u.Elem())
 			f.x.frameCheck(st, h, a.T, g, where)
 			nv := c.freshConst("hv", c.sortOf(u.Elem()))
+			c.assert(c.wf(u.Elem(), nv, st.wm()))
 			st.set(h, sto(st.get(h), a.T, nv))
 		}
 	case *types.Slice:
 		h := c.elemHeap(u.Elem())
 		f.x.frameCheck(st, h, "(s.ref "+a.T+")", and(g, "(> (s.cap "+a.T+") 0)"), where)
 		nv := c.freshConst("hv", "(Array Int "+c.sortOf(u.Elem())+")")
+		if w := c.wf(u.Elem(), "(select "+nv+" k!)", st.wm()); w != "true" {
+			c.quant = true
+			c.assert("(forall ((k! Int)) (! " + w + " :pattern ((select " + nv + " k!))))")
+		}
 		st.set(h, sto(st.get(h), "(s.ref "+a.T+")", nv))
 	case *types.Map:
 		has, val, ln := c.mapHeaps(u)
@@ -627,6 +633,7 @@ func (f *Frame) havocCall(in ssa.Instruction, key string, args []SV, cc *ssa.Cal
 	f.x.syncViews(st)
 	sig := cc.Signature()
 	where := f.where(in)
+	st.bumpWM()
 	off := 0
 	if cc.IsInvoke() || sig.Recv() != nil {
 		// receiver first
@@ -644,7 +651,6 @@ func (f *Frame) havocCall(in ssa.Instruction, key string, args []SV, cc *ssa.Cal
 	for i := 0; i < sig.Params().Len() && i+off < len(args); i++ {
 		f.havocArg(args[i+off], sig.Params().At(i).Type(), st, g, where, false)
 	}
-	st.bumpWM()
 	f.x.syncViews(st)
 	rt := resultType(cc)
 	if rt == nil {
@@ -699,6 +705,7 @@ func (f *Frame) applyContract(in ssa.Instruction, ct *Contract, fn *ssa.Function
 		}
 	}
 	old := st.clone()
+	st.bumpWM()
 	mk := func(cur *State, results []SV) *SpecEnv {
 		e := &SpecEnv{x: x, c: c, st: cur, old: old, vars: map[string]specVar{}, pkg: pkgOf(fn, ct), guard: g}
 		for n, v := range params {
@@ -751,16 +758,20 @@ func (f *Frame) applyContract(in ssa.Instruction, ct *Contract, fn *ssa.Function
 					srt := c.heapSort[t.heap]
 					inner := strings.TrimSuffix(strings.TrimPrefix(srt, "(Array Int "), ")")
 					nv := c.freshConst("asg", inner)
+					if ct := c.heapCellT[t.heap]; ct != nil {
+						if c.heapDims[t.heap] == 1 {
+							c.assert(c.wf(ct, nv, st.wm()))
+						} else if w := c.wf(ct, "(select "+nv+" k!)", st.wm()); w != "true" {
+							c.quant = true
+							c.assert("(forall ((k! " + c.heapKeyS[t.heap] + ")) (! " + w + " :pattern ((select " + nv + " k!))))")
+						}
+					}
 					st.set(t.heap, sto(st.get(t.heap), t.ref, nv))
 				}
 			}
 		}
 	}
-	st.bumpWM()
-	for gv, e := range ct.Flags {
-		_ = gv
-		_ = e
-	}
+
 	// results
 	var results []SV
 	res := sig.Results()
